@@ -7,6 +7,7 @@
 //!   mutate    every single-token deletion / duplication / replacement of seed programs
 //!   includes  all include graphs on <= 3 files x reader answers with <= 2 deviations
 //!   cli       on-disk include graphs and hostile texts through every output mode
+//!   kernel    every control-flow kernel program (loops, calls, frames, returns)
 //! Oracle: no panic (caught), no abort / stack overflow / OOM (worker death is
 //! attributed to the announced case), bounded work (sweep hook, import bound),
 //! wall watchdogs.
@@ -47,6 +48,8 @@ enum Case {
     Mutate { seed: usize, tok: usize, op: usize },
     Includes { graph: usize, answers: usize },
     Cli { idx: usize },
+    /// a control-flow kernel program (loops, calls, frames) through the whole pipeline
+    Kernel { idx: u64 },
 }
 
 /// Statement kinds for the full-pipeline scaling part: line i of n.
@@ -99,6 +102,7 @@ pub struct C06 {
     seed_tokens: Vec<Vec<(usize, usize)>>,
     cli_cases: Vec<cli::CliCase>,
     layouts: Vec<Layout>,
+    kernels: Vec<gen::KernelSpace>,
 }
 
 struct Layout {
@@ -110,6 +114,7 @@ struct Layout {
     mutate: u64,
     includes: u64,
     cli: u64,
+    kernel: u64,
 }
 
 const INCLUDE_REQUESTS: usize = 5;
@@ -206,6 +211,10 @@ impl C06 {
             seed_tokens,
             cli_cases: cli::hostile_cases(),
             layouts: vec![],
+            kernels: vec![
+                gen::KernelSpace::new(gen::KernelBounds::for_tier(Tier::Quick)),
+                gen::KernelSpace::new(gen::KernelBounds::for_tier(Tier::Thorough)),
+            ],
         };
         c.layouts = vec![c.make_layout(Tier::Quick), c.make_layout(Tier::Thorough)];
         c
@@ -272,6 +281,7 @@ impl C06 {
             mutate,
             includes: 512 * answer_sequences(tier.pick(1, 2)).len() as u64,
             cli: self.cli_cases.len() as u64,
+            kernel: self.kernels[tier.pick(0, 1)].control_part().1,
         }
     }
 
@@ -330,11 +340,15 @@ impl C06 {
             }
         }
         c -= l.mutate;
-        let na = answer_sequences(tier.pick(1, 2)).len() as u64;
-        Case::Includes {
-            graph: (c / na) as usize,
-            answers: (c % na) as usize,
+        if c < l.includes {
+            let na = answer_sequences(tier.pick(1, 2)).len() as u64;
+            return Case::Includes {
+                graph: (c / na) as usize,
+                answers: (c % na) as usize,
+            };
         }
+        c -= l.includes;
+        Case::Kernel { idx: c }
     }
 
     fn total(&self, tier: Tier) -> u64 {
@@ -346,6 +360,7 @@ impl C06 {
             + 2 * l.tok.count()
             + l.mutate
             + l.includes
+            + l.kernel
     }
 
     /// the library entry point under catch_unwind; returns number of diagnostics
@@ -546,6 +561,27 @@ impl C06 {
                     ),
                 }
             }
+            Case::Kernel { idx } => {
+                acc.count("kernel_programs", 1);
+                acc.count("traces", 1);
+                let ks = &self.kernels[tier.pick(0, 1)];
+                let k = ks.get(ks.control_part().0 + idx);
+                let text = k.program.text();
+                match Self::lint_text(&text) {
+                    Ok(_) => {
+                        acc.count("nontrivial", 1);
+                    }
+                    Err(p) => {
+                        let class = if p.contains("sweep limit") {
+                            let pass = p.split("exceeded in ").nth(1).and_then(|x| x.split(':').next()).unwrap_or("?").to_string();
+                            format!("C06|pass-does-not-converge|{pass}")
+                        } else {
+                            format!("C06|panic|kernel-program|{}|{prof}", Self::panic_class(&p))
+                        };
+                        acc.violation(class, case, json!({"text": text, "panic": p, "family": k.family}));
+                    }
+                }
+            }
             Case::Cli { idx } => {
                 acc.count("cli_cases", 1);
                 if prof != "release" {
@@ -605,6 +641,7 @@ impl Property for C06 {
             Case::Mutate { .. } => "us_mutate",
             Case::Includes { .. } => "us_includes",
             Case::Cli { .. } => "us_cli",
+            Case::Kernel { .. } => "us_kernel",
         };
         if case % 40009 == 0 || (case < 40 && case % 13 == 0) {
             acc.sample(json!({"case": case, "what": format!("{c:?}").chars().take(300).collect::<String>()}));
@@ -641,8 +678,8 @@ impl Property for C06 {
     fn info(&self, tier: Tier) -> Info {
         let l = self.layout(tier);
         Info {
-            rule: "scale: every string of length <= 2/3 over the 20-character alphabet and every token, repeated 1000 / 20000 (/ 200000) times through lexer+parser, and 14 one-line statement kinds repeated 250 / 1000 (/ 2000) times through the whole pipeline; strings: all strings up to length 3/4 through RVParser::run and length 4/5 through lexer+parser; tokens: all sequences up to length 2/3 over 57 tokens (space- and newline-joined) through RVParser::run; mutate: every single-token deletion, duplication and replacement by each alphabet token of 17/27 seed programs; includes: all 512 include graphs on 3 files x all reader-answer sequences with <= 1/2 faults; cli: on-disk include graphs and hostile texts through every output mode of the rva binary (release and dev builds). Everything in a release and an overflow-checked build. Non-trivial = inputs that produced at least one token / diagnostic".into(),
-            bounds: json!({"scale_parse_cases": l.scale_parse.len(), "scale_full_cases": l.scale_full.len(), "strings_full_len": l.str_full.max, "strings_parse_len": l.str_parse.max, "token_seq_len": l.tok.max, "mutations": l.mutate, "include_cases": l.includes, "cli_cases": l.cli, "hang_watchdog_s": 120, "worker_memory_limit": "6 GiB"}),
+            rule: "scale: every string of length <= 2/3 over the 20-character alphabet and every token, repeated 1000 / 20000 (/ 200000) times through lexer+parser, and 14 one-line statement kinds repeated 250 / 1000 (/ 2000) times through the whole pipeline; strings: all strings up to length 3/4 through RVParser::run and length 4/5 through lexer+parser; tokens: all sequences up to length 2/3 over 57 tokens (space- and newline-joined) through RVParser::run; mutate: every single-token deletion, duplication and replacement by each alphabet token of 17/27 seed programs; includes: all 512 include graphs on 3 files x all reader-answer sequences with <= 1/2 faults; cli: on-disk include graphs and hostile texts through every output mode of the rva binary (release and dev builds); kernel: every control-flow kernel program and skeleton (all sequences over 12/14 control symbols up to length 4/5: loops, pushes, calls, returns) through RVParser::run with the sweep bound armed. Everything in a release and an overflow-checked build. Non-trivial = inputs that produced at least one token / diagnostic".into(),
+            bounds: json!({"scale_parse_cases": l.scale_parse.len(), "scale_full_cases": l.scale_full.len(), "strings_full_len": l.str_full.max, "strings_parse_len": l.str_parse.max, "token_seq_len": l.tok.max, "mutations": l.mutate, "include_cases": l.includes, "cli_cases": l.cli, "kernel_programs": l.kernel, "hang_watchdog_s": 120, "worker_memory_limit": "6 GiB"}),
             assumptions: vec![
                 "termination is checked by work bounds (pass sweeps <= 4*nodes+32 via hook H6, <= 64 import requests for 3 files) and wall watchdogs; 'small polynomial' is checked as absolute envelopes on three scales, not proved".into(),
             ],
